@@ -8,6 +8,8 @@ From Coq Require Import String Ascii.
 From Coq Require Import ZArith QArith List Bool.
 Require Import DS.Model.Value DS.Model.FilterExpr DS.Gen.GenPrune DS.Model.Prune DS.Proofs.PruneProofs.
 Require Import DS.Gen.GenFilterConst DS.Gen.GenFilter DS.Model.Filter DS.Proofs.FilterProofs DS.Proofs.TextBounds.
+Require Import DS.Model.BoundPrim DS.Gen.GenBound DS.Model.Bound DS.Model.ManifestBase DS.Gen.GenManifest DS.Model.Manifest.
+Require Import DS.Proofs.ManifestProofs.
 Import ListNotations.
 Open Scope Z_scope.
 
@@ -140,6 +142,75 @@ Theorem C12_prefix_upper_bound_refuted :
 Proof. exact prefix_upper_bound_refuted. Qed.
 Print Assumptions C12_prefix_upper_bound_refuted.
 
+(* ------------------------------------------------------------------ tables with a HISTORY
+   The table a filter is applied to is the result of a history of committed transactions: several files appended at once
+   (one manifest, many entries), files deleted (each manifest of the base snapshot kept, REWRITTEN from its survivors, or
+   dropped -- Transaction._commit_file_ops, decision and survivor test REGENERATED), both in one transaction; expiry,
+   rolled-back transactions, collections and re-opening do not touch the current manifests.  The bounds of every entry go
+   through create_manifest_file / read_manifest_file (REGENERATED: Gen/GenManifest.v over the bound codec Gen/GenBound.v).
+
+   What is written for an entry and read back is the entry: for the bounds a writer computes (never NULL) on the first
+   trip, and for ANY stored entry from the second trip on -- a rewrite carries over exactly what readers saw before. *)
+Theorem C12_manifest_roundtrip :
+  (forall d : dfile, clean d -> load (store d) = d) /\ (forall e : sentry, load (store (load e)) = load e).
+Proof. exact (conj load_store load_store_load). Qed.
+Print Assumptions C12_manifest_roundtrip.
+
+(* A manifest is referenced again unchanged only if no entry of it is deleted, and left out only if none survives. *)
+Theorem C12_rewrite_decision :
+  forall (del : list Z) (m : manifest),
+    let surviving := filter (fun d => gen_survives del (dpath d)) (map load m) in
+    (gen_rewrite_decision (length surviving) (length m) = RKeep -> surviving = map load m)
+    /\ (gen_rewrite_decision (length surviving) (length m) = RDrop -> surviving = []).
+Proof. exact rewrite_decision_sound. Qed.
+Print Assumptions C12_rewrite_decision.
+
+(* Manifest rewrites are invisible.  From ANY manifest state (bounds written by any earlier version included) and for
+   ANY sequence of transactions whose appended files carry writer-made bounds, the data files in the manifests -- with the
+   bounds pruning will read -- are those of the flat list semantics: deleted files removed, appended files added, every
+   survivor's bounds as they were. *)
+Theorem C12_history_view :
+  forall (txs : list tx) (st : tstate),
+    (forall t, In t txs -> Forall clean (tx_app t)) ->
+    map load (concat (run txs st)) = spec_run txs (map load (concat st)).
+Proof. exact view_run. Qed.
+Print Assumptions C12_history_view.
+
+(* ... and Table._get_all_data_files (first occurrence of a path wins) returns exactly them, every appended file
+   having its own path. *)
+Theorem C12_history_files :
+  forall (txs : list tx),
+    (forall t, In t txs -> Forall clean (tx_app t)) ->
+    NoDup (paths (concat (map tx_app txs))) ->
+    table_files (run txs []) = spec_run txs [].
+Proof. exact history_files. Qed.
+Print Assumptions C12_history_files.
+
+(* C12 on a table with a history: whatever transactions built the table (files appended as the writer produces them:
+   exact bounds, one kind per column), for ANY bounds function that gives pruning what the manifests hold, every API
+   returns project cols (filter sql rows-of-the-live-files) -- the live files being those of the list semantics. *)
+Theorem C12_history_sql :
+  forall (X : value -> value -> bool) (E : cexpr -> row -> bool) (PA : parg -> bool)
+         (sch : list Z) (ids : list (Z * Z)) (bounds : file -> list (Z * value) * list (Z * value))
+         (split : list row -> list (list row)) (v : bool)
+         (cols : option (list Z)) (flt : pyfilter) (txs : list tx)
+         (ps : list pexpr) (ce : option cexpr) (es : list fexpr),
+    prepare PA flt = Ok (ps, ce) ->
+    map to_fexpr ps = map Some es ->
+    valid_cols sch cols -> (forall l, concat (split l) = l) ->
+    NoDup (map snd ids) ->
+    appends_written ids txs ->
+    NoDup (paths (concat (map tx_app txs))) ->
+    (forall d, In d (table_files (run txs [])) -> bounds (dfile_ d) = manifest_bounds d) ->
+    let files := map dfile_ (table_files (run txs [])) in
+    (forall e f r, ce = Some e -> In f files -> In r (frows f) -> eval3 X E e r <> None) ->
+    let answer := Ok (sel cols (filter (row_selected X es) (concat (map frows (map dfile_ (spec_run txs [])))))) in
+    scan_table X E PA sch ids bounds v cols flt files = answer
+    /\ flat (scan_batches X E PA sch ids bounds split cols flt files) = answer
+    /\ iter_records X E PA sch ids bounds cols flt files = answer.
+Proof. exact history_sql. Qed.
+Print Assumptions C12_history_sql.
+
 (* The "pyarrow does not refuse" hypothesis is satisfiable in general: it holds on every row that has
    the columns the expression reads and whose cells are comparable with the scalar literals (or NULL),
    when pyarrow refuses nothing beyond the Python-incomparable pairs. *)
@@ -263,4 +334,58 @@ Proof.
   - intros f r Hf Hr. simpl in Hf.
     destruct Hf as [<-|[<-|[]]]; simpl in Hr; repeat (destruct Hr as [<-|Hr]; [vm_compute; discriminate|]); contradiction.
   - vm_compute. repeat split.
+Qed.
+
+(* ------------------------------------------------------------------ non-vacuity, tables with a history
+   Table {s string, k long}.  One transaction appends three files ("a"/NULL, "m", "z") -- one manifest of three entries;
+   the next deletes the "z" file: the manifest is REWRITTEN with two survivors; the third deletes the "a" file and appends a
+   "b" file: rewritten again, plus a new manifest.  The hypotheses of C12_history_sql hold; the manifests hold files 11
+   and 13; the string bounds read back after two rewrites are still "m".."m"; {"s": ("<=", "m")} selects k = 3 and k = 5. *)
+Definition hx_ids : list (Z * Z) := [(0, 1); (1, 2)].
+Definition hx_file (rows : list row) : file := {| frows := rows; fcs := true |}.
+Definition hx_f0 := hx_file [ [(0, VStr [97]); (1, VInt 1)]; [(0, VNull); (1, VInt 2)] ].
+Definition hx_f1 := hx_file [ [(0, VStr [109]); (1, VInt 3)] ].
+Definition hx_f2 := hx_file [ [(0, VStr [122]); (1, VInt 4)] ].
+Definition hx_f3 := hx_file [ [(0, VStr [98]); (1, VInt 5)] ].
+Definition hx_txs : list tx :=
+  [ {| tx_app := [written hx_ids 10 hx_f0; written hx_ids 11 hx_f1; written hx_ids 12 hx_f2]; tx_del := [] |};
+    {| tx_app := []; tx_del := [12] |};
+    {| tx_app := [written hx_ids 13 hx_f3]; tx_del := [10] |} ].
+Definition hx_flt : pyfilter := [ (0, CPair (OpStr "<=") (AVal (VStr [109]))) ].
+
+Lemma hx_wf : forall f, In f [hx_f0; hx_f1; hx_f2; hx_f3] -> wf_file hx_ids (frows f).
+Proof.
+  intros f I c.
+  destruct (Z.eqb_spec c 0) as [->|N0]; [exists KStr | destruct (Z.eqb_spec c 1) as [->|N1]; [exists KInt | exists KInt]];
+    simpl in I; repeat (destruct I as [<-|I]; [|]); try contradiction;
+    intros v Hv; unfold column, cell in Hv; simpl in Hv;
+    try rewrite (proj2 (Z.eqb_neq c 0) N0) in Hv; try rewrite (proj2 (Z.eqb_neq c 1) N1) in Hv;
+    repeat (destruct Hv as [<-|Hv]; [reflexivity|]); contradiction.
+Qed.
+
+Example C12_history_nonvacuous :
+  appends_written hx_ids hx_txs
+  /\ NoDup (paths (concat (map tx_app hx_txs)))
+  /\ map (map spath) (run hx_txs []) = [ [11]; [13] ]
+  /\ map (fun e => (spath e, lookup 1 (gen_load_lower (slo e)), lookup 1 (gen_load_upper (shi e)))) (concat (run hx_txs []))
+     = [ (11, Some (VStr [109]), Some (VStr [109])); (13, Some (VStr [98]), Some (VStr [98])) ]
+  /\ map dpath (spec_run hx_txs []) = [11; 13]
+  /\ (exists ps ce, prepare ex_PA hx_flt = Ok (ps, Some ce)
+        /\ forall f r, In f (map dfile_ (table_files (run hx_txs []))) -> In r (frows f) -> eval3 ex_X ex_E ce r <> None)
+  /\ scan_table ex_X ex_E ex_PA ex_sch hx_ids (stored_bounds hx_ids) true (Some [1]) hx_flt (map dfile_ (table_files (run hx_txs [])))
+     = Ok [ [(1, VInt 3)]; [(1, VInt 5)] ].
+Proof.
+  split.
+  { intros t d It Id. simpl in It.
+    repeat (destruct It as [<-|It]; [simpl in Id; repeat (destruct Id as [<-|Id]; [split; [apply hx_wf; simpl; tauto | reflexivity]|]); contradiction|]).
+    contradiction. }
+  split; [vm_compute; repeat constructor; simpl; intuition discriminate|].
+  split; [vm_compute; reflexivity|].
+  split; [vm_compute; reflexivity|].
+  split; [vm_compute; reflexivity|].
+  split; [|vm_compute; reflexivity].
+  eexists. eexists. split; [vm_compute; reflexivity|].
+  intros f r Hf Hr. vm_compute in Hf.
+  repeat (destruct Hf as [<-|Hf]; [simpl in Hr; repeat (destruct Hr as [<-|Hr]; [vm_compute; discriminate|]); contradiction|]).
+  contradiction.
 Qed.
